@@ -2,7 +2,11 @@
 // instrumented by vrewrite: every operation is a scheduling point of vsched.
 package vsync
 
-import "golang.org/x/net/internal/zzverif/vsched"
+import (
+	"sync"
+
+	"golang.org/x/net/internal/zzverif/vsched"
+)
 
 // Mutex mirrors sync.Mutex.
 type Mutex struct{ l vsched.Lockable }
@@ -15,9 +19,14 @@ func (m *Mutex) Unlock() { m.l.Release("mutex.Unlock") }
 type Once struct {
 	m    Mutex
 	done bool
+	real sync.Once // free-running mode only
 }
 
 func (o *Once) Do(f func()) {
+	if vsched.Free {
+		o.real.Do(f)
+		return
+	}
 	o.m.Lock()
 	defer o.m.Unlock()
 	if !o.done {
@@ -27,9 +36,16 @@ func (o *Once) Do(f func()) {
 }
 
 // WaitGroup mirrors sync.WaitGroup.
-type WaitGroup struct{ n int }
+type WaitGroup struct {
+	n    int
+	real sync.WaitGroup // free-running mode only
+}
 
 func (w *WaitGroup) Add(d int) {
+	if vsched.Free {
+		w.real.Add(d)
+		return
+	}
 	vsched.Yield()
 	w.n += d
 	if w.n < 0 {
@@ -37,4 +53,10 @@ func (w *WaitGroup) Add(d int) {
 	}
 }
 func (w *WaitGroup) Done() { w.Add(-1) }
-func (w *WaitGroup) Wait() { vsched.WaitUntil("wg.Wait", func() bool { return w.n == 0 }) }
+func (w *WaitGroup) Wait() {
+	if vsched.Free {
+		w.real.Wait()
+		return
+	}
+	vsched.WaitUntil("wg.Wait", func() bool { return w.n == 0 })
+}
